@@ -118,12 +118,13 @@ def append_index_commit_order(ctx, s, root, loop=False):
     ctx.floor("S-ORDER.%s.index" % name, len(idx), 1)
     ctx.floor("S-ORDER.%s.commit" % name, len(commits), 1)
     ab, ainfo = app[0]
-    app_ok = s.ok_edges_of_call(fn, ab)
+    app_ok = [e for b_, i_ in app for e in s.ok_edges_of_call(fn, b_)]
     for ib, iinfo in idx:
         ok = s.must_pass(fn, ib, app_ok)
-        # the offset that is indexed is the one the append returned
+        # the offset that is indexed is the one the append (the one on this path, when there are several) returned
         off = iinfo["args"][-1]
-        prov = contains_value(off, lambda x: x == ainfo["value"])
+        prov = any(contains_value(off, lambda x, v_=i_["value"]: x == v_) and
+                   (len(app) == 1 or s.must_pass(fn, ib, s.ok_edges_of_call(fn, b_))) for b_, i_ in app)
         if ok and prov:
             s.add("S-ORDER", fn, "append<index", name, iinfo["sp"], PROVED,
                   "index() is reached only after the append succeeded and receives the offset it returned", ib)
@@ -145,7 +146,7 @@ def append_index_commit_order(ctx, s, root, loop=False):
     # no commit between append and index
     for cb, cinfo in commits:
         for ib, iinfo in idx:
-            if an.cfg.dominates(ab, cb) and an.cfg.dominates(cb, ib):
+            if any(an.cfg.dominates(b_, cb) for b_, _ in app) and an.cfg.dominates(cb, ib):
                 s.add("S-ORDER", fn, "commit-between", name, cinfo["sp"], VIOLATION,
                       "a commit lies between the append and the indexing", cb)
     return app_ok
@@ -249,9 +250,19 @@ def read_bound_by_marker(ctx, s):
                     ok = True
         arg = info["args"][0]
         from_off = arg[0] == "slicefrom" and arg[2] == off
+        if not from_off:
+            # a piece of map[offset..] (cut to the record's own length, obtained through get(offset..)): it still starts at
+            # the offset
+            from_off = bool(find_values(arg, lambda y: (y[0] == "slicefrom" and y[2] == off) or
+                                        (y[0] == "slice" and y[2] == off))) and \
+                not find_values(arg, lambda y: y[0] in ("slicefrom", "slice") and y[2] != off and
+                                not (y[2][0] == "const" and y[2][1] == 0))
         if ok and from_off:
             s.add("S-REL", fn, "offset<end", "delineate(map[offset..])", info["sp"], PROVED,
                   "reached only when offset < end marker; the slice starts at the offset", b)
+        elif ok:
+            s.add("S-REL", fn, "offset<end", "delineate(map[offset..])", info["sp"], UNDECIDED,
+                  "reached only when offset < end marker; that the bytes parsed start at the offset was not recognised: not decided", b)
         else:
             s.add("S-REL", fn, "offset<end", "delineate(map[offset..])", info["sp"], VIOLATION,
                   "an offset at or beyond the end marker can be read (bytes of an unfinished append)", b)
@@ -621,6 +632,16 @@ def recorded_length_is_file_length(ctx, s):
         from ..srules import leaf_values
         vals = leaf_values(an, v) or [v]
         real = any(contains_value(x, lambda y: y[0] == "call" and y[1].rsplit("::", 1)[-1] == "len" and "fs" in y[1]) for x in vals)
+        if not real and vals and all(x[0] == "const" for x in vals):
+            # a constant is the real length where the file was just given that length (set_len of the same constant on
+            # every path to this site)
+            sized = [e for sb, si in an.calls() if (si["callee"] or "").endswith("::set_len") and
+                     any(contains_value(a, lambda y: y[0] == "const" and y[1] == vals[0][1]) and
+                         not contains_value(a, lambda y: y[0] in ("bin", "call", "phi")) for a in si["args"][1:]) and
+                     all(x[1] == vals[0][1] for x in vals)
+                     for e in (s.ok_edges_of_call(fn, sb) or [sb])]
+            if sized and s.must_pass(fn, b, sized):
+                real = True
         s.add("S-REL", fn, "recorded-length-is-file-length", "event_map_file_len", info["sp"], PROVED if real else VIOLATION,
               "for an existing file the recorded length is metadata().len()" if real else
               "the recorded file length does not come from the file's metadata: after a reopen the next grow computes a length "
